@@ -13,7 +13,7 @@ def main(ctx):
     c15n.replay_cex(ctx, cexs_n)
     ctx.cov['explanation'] = ('schedule: real pandora.run / read_multiscale_params / run_prepare / matching_cost_prepare / run_multiscale '
                               'executed with EUF stubs and a stub pyramid; interval ends are z3 Reals, so "coarsest interval == user / sf^(n-1)" '
-                              'and "finer interval == sf * disparity_range(coarser map)" are z3 validity queries; numerics: see harness list')
+                              'and "finer interval == sf * disparity_range(coarser map)" are z3 validity queries; ' + ctx.cov.pop('explanation_numerics', ''))
 
 
 def replay(body):
